@@ -18,6 +18,10 @@ ASSUMPTIONS = [
     "regular files (explicit hypothesis `script = []`); short reads are modelled and tied (a short read is taken as a mismatch by the code)",
     "zix_symlink_type, zix_canonical_path, zix_dir_for_each, symlinks and permissions are NOT in the proved part: "
     "they are compared with direct lstat/realpath/readdir calls by the driver only",
+    "create_directories with pre-existing symbolic links (to a directory, to a file, dangling; as intermediate or final "
+    "component): real runs only, L1 = SUCCESS exactly when stat (following links) says the path names a directory; the "
+    "model's answer for these cases is computed on the abstract file system with a link to a directory counted as a "
+    "directory and any other link as a file, and only the observable part is compared",
     "page size 4096 (sysconf) in the model driver",
 ]
 
@@ -91,6 +95,15 @@ def gen(ctx, seed, tier):
             cases.append("D 1 %s %s" % (s, p))
         if r.random() < 0.1:
             cases.append("D 0 %s %s" % (r.choice(SETUPS), p))
+    # pre-existing symbolic links (real file system only; L1 = SUCCESS exactly when stat says the path is a directory)
+    link_setups = ["d:a,l:s=a", "d:a,d:a/b,l:s=a", "f:a,l:s=a", "l:s=nowhere", "d:a,d:a/b,l:a/s=b", "d:a,l:s=a,l:t=s",
+                   "d:a,f:a/f,l:a/s=f"]
+    link_paths = ["s", "s/", "s/x", "s/x/y", "s//x/", "./s/b", "s/./x", "a/s", "a/s/x", "a/s/x/y", "t/x", "x/s", "s/b/c", "a/b/s"]
+    for s in link_setups:
+        for p in link_paths:
+            cases.append("D 1 %s %s" % (s, p))
+            if r.random() < 0.2:
+                cases.append("D 1 %s @/%s" % (s, p))
     # E: sizes around the page size and the fall-back buffer
     sizes = [0, 1, 2, 511, 512, 513, 1023, 1024, 1025, 4095, 4096, 4097, 8191, 8192, 8193]
     if thorough:
